@@ -493,8 +493,11 @@ inductive Op
   | sRemove (v k : Nat) | sRemoveRef (v i : Nat) | sRemoveSet (v w : Nat) | sRemoveAt (v i : Nat)
   -- PoolList
   | pAppend (v x : Nat) | pRemove (v i : Nat) | pRemoveRef (v i : Nat)
+  | pRemoveChain (v i j : Nat)      -- remove(element i) whose destructor removes element j of the same pool (re-entrant removal)
   -- PoolMap
   | qAppend (v k x : Nat) | qRemove (v k : Nat) | qRemoveAt (v i : Nat) | qRemoveRef (v i : Nat)
+  | qInsert (v : Nat) (pos : Option Nat) (k x : Nat)          -- insert(position, key); some 0 = at begin()
+  | qRemoveChain (v i j : Nat)
 deriving Repr
 
 def guard' (b : Bool) (ms : List Micro) : Option (List Micro) := if b then some ms else none
@@ -604,11 +607,22 @@ def compile (st : State) : Op → Option (List Micro)
   | .pAppend v x => guard' (v ≤ 1) [.put ⟨.P, v⟩ none none (some (.inplace x))]
   | .pRemove v i => guard' (v ≤ 1 && i < len st ⟨.P, v⟩) [.remove ⟨.P, v⟩ i]
   | .pRemoveRef v i => guard' (v ≤ 1 && i < len st ⟨.P, v⟩) [.remove ⟨.P, v⟩ i]
+  -- `remove(x_i)` where `~T` of x_i calls `remove(x_j)` on the same pool: the item i is unlinked before its destructor
+  -- runs, the nested removal completes (destroy x_j, push its slot) inside it, then x_i dies and its slot is pushed
+  | .pRemoveChain v i j =>
+    guard' (v ≤ 1 && i < len st ⟨.P, v⟩ && j < len st ⟨.P, v⟩ && i != j)
+      [.remove ⟨.P, v⟩ j, .remove ⟨.P, v⟩ (if j < i then i - 1 else i)]
   -- PoolMap
   | .qAppend v k x => guard' (v ≤ 1) [.put ⟨.Q, v⟩ none (some (.ext k)) (some (.inplace x))]
   | .qRemove v k => guard' (v ≤ 1) [.removeKey ⟨.Q, v⟩ (.ext k)]
   | .qRemoveAt v i => guard' (v ≤ 1 && i < len st ⟨.Q, v⟩) [.remove ⟨.Q, v⟩ i]
   | .qRemoveRef v i => guard' (v ≤ 1 && i < len st ⟨.Q, v⟩) [.remove ⟨.Q, v⟩ i]
+  | .qInsert v pos k x =>
+    guard' (v ≤ 1 && pos.getD 0 ≤ len st ⟨.Q, v⟩) [.put ⟨.Q, v⟩ pos (some (.ext k)) (some (.inplace x))]
+  -- the nested removal is started by the destructor of the KEY object of item i (the first member `~Item` destroys)
+  | .qRemoveChain v i j =>
+    guard' (v ≤ 1 && i < len st ⟨.Q, v⟩ && j < len st ⟨.Q, v⟩ && i != j)
+      [.remove ⟨.Q, v⟩ j, .remove ⟨.Q, v⟩ (if j < i then i - 1 else i)]
 
 /-- result of one operation: rejected (`bad-op`, state unchanged), not executable (`fault`: the model
     claims the real code never gets there) or the new state -/
